@@ -1,0 +1,49 @@
+//go:build verif
+
+// Contracts for the deductive verifier in /verif (comment-only file; compiled out
+// unless the build tag `verif` is set, and even then contains no executable code).
+package flat
+
+// ---- flat search (property C04): bounded sorted insertion = exact top-k maintenance ----
+// pid / pdist: the id of a stored point and its distance to the query (the value the store's
+// distance closure returns for it); both are functions of the point value.
+
+//@ func (IndexFlat).Search$1
+//@   property C04
+//@   floats order
+//@   safety -overflow
+//@   callback distFn ensures result == pdist(arg0) && !isNaN(result)
+//@   invariant len(res) <= cap(res) && cap(res) > 0
+//@   invariant forall(i, 0, len(res), res[i].Distance != nil && !isNaN(*res[i].Distance))
+//@   invariant forall(i, 0, len(res)-1, *res[i].Distance <= *res[i+1].Distance)
+//@   invariant forall(i, 0, len(res), filter == nil || bhas(filter, res[i].NodeId))
+//@   invariant forall(i, 0, len(res), res[i].HybridScore == -1 * weight * *res[i].Distance)
+//@   ensures result == nil
+//@   preserves cap(res)
+//@   modifies res
+//@   ensures filter != nil && !bhas(filter, pid(point)) ==> len(res) == old(len(res)) && forall(j, 0, len(res), res[j] == old(res[j]))
+//@   ensures old(len(res)) == cap(res) && len(res) > 0 && pdist(point) >= old(*res[len(res)-1].Distance) ==> len(res) == old(len(res)) && forall(j, 0, len(res), res[j] == old(res[j]))
+//@   ensures (filter == nil || bhas(filter, pid(point))) && cap(res) > 0 && !(old(len(res)) == cap(res) && pdist(point) >= old(*res[len(res)-1].Distance)) ==> len(res) == min(old(len(res))+1, cap(res)) && exists(p, 0, len(res), res[p].NodeId == pid(point) && *res[p].Distance == pdist(point) && forall(j, 0, p, res[j] == old(res[j])) && forall(j, p+1, len(res), res[j] == old(res[j-1])))
+//@   loop 1 invariant i >= 0 && i < len(res) && len(res) == min(old(len(res))+1, cap(res)) && cap(res) == old(cap(res))
+//@   loop 1 invariant res[i].NodeId == pid(point)
+//@   loop 1 invariant res[i].Distance != nil && *res[i].Distance == pdist(point)
+//@   loop 1 invariant res[i].HybridScore == -1 * weight * pdist(point)
+//@   loop 1 invariant forall(j, 0, i, res[j] == old(res[j]))
+//@   loop 1 invariant forall(j, i+1, len(res), res[j] == old(res[j-1]) && pdist(point) < *res[j].Distance)
+
+//@ func (IndexFlat).Search
+//@   property C04
+//@   floats order
+//@   safety -overflow
+//@   requires options.Limit >= 1
+//@   ensures result2 == nil ==> len(result1) <= options.Limit
+//@   ensures result2 == nil ==> forall(i, 0, len(result1), result1[i].Distance != nil && !isNaN(*result1[i].Distance))
+//@   ensures result2 == nil ==> forall(i, 0, len(result1)-1, *result1[i].Distance <= *result1[i+1].Distance)
+//@   ensures result2 == nil ==> forall(i, 0, len(result1), filter == nil || bhas(filter, result1[i].NodeId))
+//@   ensures result2 == nil && options.Weight == nil ==> forall(i, 0, len(result1), result1[i].HybridScore == -1 * 1 * *result1[i].Distance)
+//@   ensures result2 == nil && options.Weight != nil ==> forall(i, 0, len(result1), result1[i].HybridScore == -1 * *options.Weight * *result1[i].Distance)
+//@   ensures result2 == nil ==> result0 != nil && forall(i, 0, len(result1), bhas(result0, result1[i].NodeId))
+//@   ensures result2 == nil ==> forallv(x uint64, bhas(result0, x) ==> exists(i, 0, len(result1), result1[i].NodeId == x))
+//@   loop 1 invariant rangeindex >= -1 && rangeindex < len(res) && fresh(rSet)
+//@   loop 1 invariant forall(i, 0, rangeindex+1, bhas(rSet, res[i].NodeId))
+//@   loop 1 invariant forallv(x uint64, bhas(rSet, x) ==> exists(i, 0, rangeindex+1, res[i].NodeId == x))
